@@ -587,3 +587,57 @@ func VF_Doc_EmptiedArray() {
 	vf.Assert(jsonDeepEq(jb, ins), "C04 the inserted elements keep the order their author saw")
 	vf.Assert(docInv(a.doc) && docInv(b.doc), "L3 invariants")
 }
+
+// VF_Doc_ResolveAfterRemote (C03, C19, C04): a replica resolves a position of an
+// array of objects (GetByPath, and a patch that changes a key of that element),
+// then receives a remote insert or delete at a position chosen by the solver, and
+// resolves the same position again.  What it finds is what the array shows at
+// that position now; a patch that edits "/arr/i/k" edits the element that is at
+// i now; the other replica follows.  Remote operations are operations too:
+// whatever a read remembered must not survive them.
+func VF_Doc_ResolveAfterRemote() {
+	vf.HashAbstract(true)
+	a, b := vfNewDoc("a"), vfNewDoc("b")
+	vf.Assume(a.doc.GetCUID() != b.doc.GetCUID())
+	_, e0 := a.doc.PutToObject("arr", []interface{}{map[string]interface{}{"k": "0"}, map[string]interface{}{"k": "1"}, map[string]interface{}{"k": "2"}})
+	vf.Assert(e0 == nil, "setup")
+	b.receive(a.flush())
+	i := vf.Choice("position", 3)
+	ptr := "/arr/" + string(rune('0'+i))
+	first, e1 := a.doc.GetByPath(ptr)
+	vf.Assert(e1 == nil && first != nil, "C03 the position resolves")
+	if vf.Choice("patched-before", 2) == 1 {
+		tgt := a.doc.ToJSON().(map[string]interface{})
+		tgt["arr"].([]interface{})[i].(map[string]interface{})["k"] = "p1"
+		tb, _ := json.Marshal(tgt)
+		_, ep := a.doc.PatchByJSON(string(tb))
+		vf.Assert(ep == nil, "C19 patch succeeds")
+		b.receive(a.flush())
+	}
+	// the other replica changes the array in front of / at / behind that position
+	arrB := child(b.doc, "arr")
+	if vf.Choice("remote-op", 2) == 0 {
+		_, e := arrB.InsertToArray(vf.Int("remote.pos", 0, 3), map[string]interface{}{"k": "new"})
+		vf.Assert(e == nil, "remote insert succeeds")
+	} else {
+		_, e := arrB.DeleteInArray(vf.Int("remote.pos", 0, 2))
+		vf.Assert(e == nil, "remote delete succeeds")
+	}
+	a.receive(b.flush())
+	view := a.doc.ToJSON().(map[string]interface{})["arr"].([]interface{})
+	vf.Reach("received")
+	got, e2 := a.doc.GetByPath(ptr)
+	if i < len(view) {
+		vf.Assert(e2 == nil && got != nil && jsonDeepEq(got.GetValue(), view[i]), "C03 a position resolves to what the array shows there now")
+		// a patch that edits the element at i
+		tgt := a.doc.ToJSON().(map[string]interface{})
+		tgt["arr"].([]interface{})[i].(map[string]interface{})["k"] = "p2"
+		tb, _ := json.Marshal(tgt)
+		_, ep := a.doc.PatchByJSON(string(tb))
+		vf.Assert(ep == nil && jsonDeepEq(a.doc.ToJSON(), tgt), "C19 a patch edits the element that is at the position now")
+		b.receive(a.flush())
+		vf.Assert(jsonDeepEq(b.doc.ToJSON(), tgt), "C19 the other replica follows")
+	} else {
+		vf.Assert(e2 != nil, "C03 a position beyond the end addresses nothing")
+	}
+}
